@@ -46,7 +46,7 @@ def grid_items(tier):
             ['GET', 'HEAD', 'POST'], [False, True], ['none', 'plain', 'with-cl'],
             ['200', '204', '304', '404'], CLS, shapes):
         yield ('response', method, reqtr, info, status, cl, shape[0], shape[1], shape[2])
-    for method, cl, shape in itertools.product(['GET', 'POST'], CLS, shapes):
+    for method, cl, shape in itertools.product(['GET', 'POST', 'HEAD'], CLS, shapes):
         yield ('request', method, False, 'none', '', cl, shape[0], shape[1], shape[2])
 
 
@@ -54,7 +54,7 @@ def cl_value(cl, total):
     return {'absent': None, '0': 0, 'eq': total, 'minus1': total - 1, 'plus1': total + 1, '100': 100}[cl]
 
 
-def run_message(r, direction, method, reqtr, info, status, clv, pattern, end, pads, cfg=None):
+def run_message(r, direction, method, reqtr, info, status, clv, pattern, end, pads, cfg=None, trailer_cl=None):
     """pads: list of pad lengths (or None) per DATA frame."""
     total = sum(pattern)
     client = direction == 'response'
@@ -108,7 +108,10 @@ def run_message(r, direction, method, reqtr, info, status, clv, pattern, end, pa
             if last and end == 'data':
                 ended = True
         if o is not None and end == 'trailers':
-            o = feed(wire.headers(1, s.hblock([(b'x-trailer', b'1')]), end_stream=True), 'trailers')
+            # (a content-length field among the trailers is just another trailer field: the length that counts
+            # is the one the message declared in its header block)
+            tr = [(b'x-trailer', b'1')] + ([(b'content-length', b'%d' % trailer_cl)] if trailer_cl is not None else [])
+            o = feed(wire.headers(1, s.hblock(tr), end_stream=True), 'trailers')
             ended = o is not None
     r.step(direction, method, 'req-trailers' if reqtr else '', info, status, 'cl', clv, pattern, end, pads, steps)
     no_content = client and (method == 'HEAD' or status in ('204', '304'))
@@ -146,7 +149,7 @@ def run_case(data):
     ch = Chooser(data)
     r = Result()
     direction = ch.pick(['response', 'request'])
-    method = ch.pick(['GET', 'HEAD', 'POST'] if direction == 'response' else ['GET', 'POST', 'PUT'])
+    method = ch.pick(['GET', 'HEAD', 'POST'] if direction == 'response' else ['GET', 'POST', 'PUT', 'HEAD'])
     reqtr = direction == 'response' and ch.chance(64)
     info = ch.weighted([(6, 'none'), (1, 'plain'), (1, 'with-cl')]) if direction == 'response' else 'none'
     status = ch.pick(['200', '204', '304', '404', '500', '205']) if direction == 'response' else ''
@@ -169,7 +172,11 @@ def run_case(data):
         cfg = {'header_encoding': ch.pick(['utf-8', 'latin-1']) if bits & 2 else None,
                'validate_inbound_headers': not bits & 4, 'normalize_inbound_headers': not bits & 8}
         r.labels.add('non-default-config')
-    run_message(r, direction, method, reqtr, info, status, clv, pattern, end, pads, cfg)
+    trailer_cl = None
+    if end == 'trailers' and ch.chance(64):
+        trailer_cl = ch.pick([total, total + 1, 0, clv if clv is not None else 3])
+        r.labels.add('content-length-in-trailers')
+    run_message(r, direction, method, reqtr, info, status, clv, pattern, end, pads, cfg, trailer_cl)
     r.nontrivial = clv is not None or method == 'HEAD' or status in ('204', '304')
     r.labels.add(direction)
     if any(p is not None for p in pads):
